@@ -80,7 +80,12 @@ func (g *ProgGen) natFamily(k int) natFam {
 		g.Funs = append(g.Funs, d)
 	}
 	fun(f.zero, nat(), tNew("t", one(), tClose(), tSelSelf(f.lz, "t")))
-	fun(f.succ, nat(), tSelSelf(f.ls, "n"), "n")
+	succBody := tSelSelf(f.ls, "n")
+	if g.Chance(30, "succpol") {
+		succBody.Y.Pol = 1 // self.s<+n>: an explicit polarity on a name whose type is a type name
+		g.feat("polarity-on-named-type")
+	}
+	fun(f.succ, nat(), succBody, "n")
 	fun(f.consume, one(), tCase(ast.N("n"),
 		br(f.lz, "c", tPrint(g.plabel("z"), tWait("c", tClose()))),
 		br(f.ls, "c", tPrint(g.plabel("s"), tCall(f.consume, "c")))), "n")
